@@ -373,10 +373,22 @@ def run(ctx):
                 inf3 = fitter.fit(Source.from_ascii(lines[i_]))
                 fo.write(inf3)
                 want.append(probe.canon_info(inf3))
+            # ... and a result whose model names were edited by hand to carry blanks (records are returned as written, character by character)
+            inf4 = fitter.fit(Source.from_ascii(lines[eligible[0]]))
+            padded = np.array([('  ' if j_ % 2 else '') + str(x_).strip() + '   ' for j_, x_ in enumerate(inf4.model_name)])
+            inf4.model_name = padded.astype(inf4.model_name.dtype.kind + str(max(len(x_) for x_ in padded)))
+            names_written = [x_.decode() if isinstance(x_, bytes) else str(x_) for x_ in inf4.model_name.tolist()]
+            fo.write(inf4)
+            want.append(probe.canon_info(inf4))
             fo.close()
             fin2 = FitInfoFile(seqp, 'r')
-            back = [probe.canon_info(x) for x in fin2]
+            back_objs = list(fin2)
+            back = [probe.canon_info(x) for x in back_objs]
             fin2.close()
+            names_read = [x_.decode() if isinstance(x_, bytes) else str(x_) for x_ in np.asarray(back_objs[-1].model_name).tolist()] if back_objs else []
+            if len(back) == len(want) and names_read != names_written:
+                ctx.violation('sequence:model-names-altered', 'model names read back differ, character by character, from the names of the record as written',
+                              dict(wit0, written=names_written[:4], read=names_read[:4]))
             ctx.event('sequence:written-then-read')
             if len(back) != len(want):
                 ctx.violation('sequence:record-count', 'a sequence of records written then read returns a different number of records',
